@@ -249,3 +249,71 @@ Theorem C16_run_rewrites_named_entries_only : forall cfg work env file d,
     /\ comment a' = comment (parse file).
 Proof. exact run_rewrites_named_entries_only. Qed.
 Print Assumptions C16_run_rewrites_named_entries_only.
+
+From Coq Require Import Permutation.
+From GI Require Lib.GoSem Lib.GoSemState Lib.GoSemFail TsRun.SrcLibUpdate Gen.TsUpdateSrc TsRun.SrcFactsUpdate.
+
+(* ---- the source itself: the pure segments of UpdateScripts -- the body of the inner loop of
+   applyScriptUpdates, the arguments of its os.WriteFile, and doCmdCmp from the comparison to the
+   diff -- translated on every run by harness/go2coq (Gen/TsUpdateSrc.v), are the model
+   (TsRun/SrcFactsUpdate.v).  The two loops of applyScriptUpdates are composed around the
+   translated body (src_outer: the map iterated in the order [us]; src_apply: then the arguments
+   of os.WriteFile). *)
+
+(* One entry of the archive, one recorded update: the name test, then update_data (NeedsQuote /
+   Quote), Fatalf exactly where Quote refuses. *)
+Theorem C16_source_entry : forall name content found (f : bytes * bytes),
+  TsUpdateSrc.src_TestScript_applyScriptUpdates_entry name content found f =
+    if negb (bytes_eqb (fst f) name) then GoSem.Ok (GoSem.Continue (found, f))
+    else match update_data content with
+         | Some d' => GoSem.Ok (GoSem.Normal (true, (fst f, d')))
+         | None => GoSem.Ok (GoSem.Return (GoSemFail.FailedM TsRun.SrcFactsUpdate.update_msg))
+         end.
+Proof. exact TsRun.SrcFactsUpdate.src_entry_eq. Qed.
+Print Assumptions C16_source_entry.
+
+(* The rewriting does not depend on the order in which Go iterates over the map: for EVERY
+   permutation [us] of the recorded updates U (no key twice; every key the name of an entry) the
+   loops never panic; they end in ts.Fatalf exactly when the model has no archive, otherwise
+   with the model's entries. *)
+Theorem C16_source_apply_updates_any_order : forall U us fs, Permutation us U -> NoDup (map fst U) ->
+  (forall k, In k (map fst U) -> In k (map fst fs)) ->
+  exists a, TsRun.SrcFactsUpdate.src_outer us fs = GoSem.Ok a /\
+            TsRun.SrcFactsUpdate.res_of_model (update_files U fs) a.
+Proof. exact TsRun.SrcFactsUpdate.src_apply_updates_eq. Qed.
+Print Assumptions C16_source_apply_updates_any_order.
+
+(* What reaches os.WriteFile: the script's own file name and txtar.Format of the model's updated
+   archive; nothing is written when Quote refuses. *)
+Theorem C16_source_written_bytes : forall U us ts, Permutation us U -> NoDup (map fst U) ->
+  (forall k, In k (map fst U) -> In k (map fst (files (SrcLibUpdate.u_archive ts)))) ->
+  TsRun.SrcFactsUpdate.src_apply us ts =
+    GoSem.Ok (match apply_updates (SrcLibUpdate.u_archive ts) U with
+              | Some a' => Some (SrcLibUpdate.u_file ts, format a')
+              | None => None
+              end).
+Proof. exact TsRun.SrcFactsUpdate.src_apply_eq. Qed.
+Print Assumptions C16_source_written_bytes.
+
+(* cmp / cmpenv from the comparison on: the model's verdict (cmp_tail is the tail of cmd_cmp:
+   C16_source_cmp_tail_is_model), and when an update is recorded -- UpdateScripts, not cmpenv, not
+   negated, texts differ, the CLEANED absolute name is a key of scriptFiles -- the receiver
+   afterwards agrees with the model's state afterwards: scriptUpdates[entry] = text1. *)
+Theorem C16_source_cmp_verdict : forall upd ts st neg env name1 name2 text1 abs2 text2,
+  TsRun.SrcFactsUpdate.recv_agrees upd ts st ->
+  exists o, TsUpdateSrc.src_TestScript_doCmdCmp_verdict ts neg env name1 name2 text1 abs2 text2 = GoSem.Ok o /\
+    match TsRun.SrcFactsUpdate.cmp_tail upd env neg text1 text2 abs2 st with
+    | Done st' => exists ts', TsRun.SrcFactsUpdate.view_of_cmp o = Some (TsRun.SrcFactsUpdate.CmpDone ts') /\
+                              TsRun.SrcFactsUpdate.recv_agrees upd ts' st'
+    | Failed _ => TsRun.SrcFactsUpdate.view_of_cmp o = Some TsRun.SrcFactsUpdate.CmpFailed
+    | SkipNow _ => False
+    end.
+Proof. exact TsRun.SrcFactsUpdate.src_cmp_verdict_eq. Qed.
+Print Assumptions C16_source_cmp_verdict.
+
+Theorem C16_source_cmp_tail_is_model : forall upd envsubst neg n1 n2 st text1 data,
+  bytes_eqb n1 n2 = false -> ts_read st n1 = Some text1 -> read_file (s_fs st) (mkabs st n2) = Some data ->
+  cmd_cmp upd envsubst neg [n1; n2] st =
+    TsRun.SrcFactsUpdate.cmp_tail upd envsubst neg text1 (if envsubst then expand (s_env st) data else data) (mkabs st n2) st.
+Proof. exact TsRun.SrcFactsUpdate.cmd_cmp_tail. Qed.
+Print Assumptions C16_source_cmp_tail_is_model.
